@@ -177,7 +177,10 @@ HistNext(h, a, i, pre, post, preD, postD) ==
       gc1 == IF up THEN GcAdd(h.gc, post, postD, FirstIndex(post, postD), post.commit) ELSE h.gc
       gcBase1 == IF up /\ post.usnap.has THEN MapPut(h.gcBase, post.usnap.index, post.usnap.term) ELSE h.gcBase
       \* what raft hands to the application
-      dl1 == CASE a.name \in {"Restart", "Boot"} /\ up -> [h.dl EXCEPT ![i] = [next |-> post.applied + 1, inc |-> a.inc]]
+      \* (a restart continues after the *configured* applied index, wherever the node says its cursor is)
+      dl1 == CASE a.name = "Restart" /\ up ->
+                    [h.dl EXCEPT ![i] = [next |-> (IF a.k > post.applied THEN a.k ELSE post.applied) + 1, inc |-> a.inc]]
+               [] a.name = "Boot" /\ up -> [h.dl EXCEPT ![i] = [next |-> post.applied + 1, inc |-> a.inc]]
                [] a.name = "Ready" /\ a.rd.has ->
                     LET nx0 == IF a.rd.snap.has THEN a.rd.snap.index + 1 ELSE h.dl[i].next
                         nx1 == IF Len(a.rd.committed) > 0 THEN Last(a.rd.committed).index + 1 ELSE nx0
